@@ -33,7 +33,9 @@ Lemma gate_code s t c : gate s t = Some c -> c <> 0.
 Proof.
   unfold gate. codes. destruct (msig_gate s t) as [c0|] eqn:EM.
   - intros H; injection H as <-. exact (msig_gate_code _ _ _ EM).
-  - codes.
+  - codes. destruct (tx_price_r (s_prices s) t) as [v|c0] eqn:EP.
+    + codes.
+    + intros H; injection H as <-. exact (tx_price_r_code _ _ _ EP).
 Qed.
 
 Lemma run_code_nonzero s t c : run s t = inl c -> c <> 0.
@@ -60,9 +62,11 @@ Proof.
   destruct (Z.ltb_spec max_service_len (t_service_len t)); [discriminate|].
   destruct (msig_gate s t); [discriminate|].
   destruct (Z.eqb_spec (get_nonce (s_nonce s) (sender_of t) + 1) (t_nonce t)); [|discriminate]. cbn [negb].
-  destruct (Z.eqb_spec (tx_price (s_prices s) t) 0); cbn [negb andb].
-  - intros _. repeat split; auto; lia.
-  - destruct (Z.ltb_spec 0 (tx_price (s_prices s) t)); [|discriminate]. intros _. repeat split; auto; lia.
+  unfold tx_price. destruct (tx_price_r (s_prices s) t) as [v|c0] eqn:EP; [|discriminate].
+  unfold tx_price_r in EP.
+  destruct (Z.eqb_spec (table_price (s_prices s) t) 0); cbn [negb andb].
+  - injection EP as <-. intros _. repeat split; auto; lia.
+  - destruct (Z.ltb_spec 0 v); [|discriminate]. intros _. repeat split; auto; lia.
 Qed.
 
 Lemma payer_of_code t c : payer_of t = inr c -> c = cDecodeError.
@@ -76,6 +80,7 @@ Qed.
 Lemma failed_branch_code s t c c' effs : failed_branch s t c = (c', effs) -> c <> 0 -> c' <> 0.
 Proof.
   unfold failed_branch. intros H Hc.
+  destruct (failed_price_r (s_prices s) t) as [fp|c0] eqn:EF; [|injection H as <- _; exact (failed_price_r_code _ _ _ EF)].
   destruct (calc_commission _ _); [|injection H as <- _; discriminate].
   destruct (payer_of t) as [p|c1] eqn:EP.
   - destruct (0 <? _); injection H as <- _; exact Hc.
